@@ -26,7 +26,9 @@ import (
 //	              up-to-date Ready pod never grows and shrinks by the number of creations.
 func ZZ_C02_lemmas() {
 	// every cluster size from a single node up to the bound
-	n := 1 + zzConcSmall(nondet.Int("extraNodes", 0, zzNumNodes(2, 3)), zzNumNodes(2, 3))
+	// (thorough: the same sizes, with the slow-start parameters and the activation time symbolic as well;
+	// four nodes on top of that did not finish within 25 minutes)
+	n := 1 + zzConcSmall(nondet.Int("extraNodes", 0, 2), 2)
 	cats := make([]int, n)
 	for i := range cats {
 		cats[i] = zzConcSmall(nondet.Int("cat"+strconv.Itoa(i), 0, zzNumCat-1), zzNumCat-1)
@@ -49,7 +51,7 @@ func ZZ_C02_lemmas() {
 	rs.Status.Conditions = []datadoghqv1alpha1.ExtendedDaemonSetReplicaSetCondition{{
 		Type: datadoghqv1alpha1.ConditionTypeActive, Status: corev1.ConditionTrue, LastTransitionTime: metav1.NewTime(since), LastUpdateTime: metav1.NewTime(since),
 	}}
-	params, items := zzParams(ds, rs, cats)
+	params, items := zzParamsV(ds, rs, cats, true)
 	client := fakeapi.New()
 	res, err := ManageDeployment(client, ds, params, metav1.Now())
 	nondet.Assert("C02.noerror", err == nil)
